@@ -40,7 +40,7 @@ func VerifC15H264() {
 	}
 	fresh := &H264Packet{IsAVC: avc}
 	var pkts [][]byte
-	switch verifCase("frame", 0, 4) {
+	switch verifCase("frame", 0, 5) {
 	case 0: // single NAL unit
 		pkts = append(pkts, verifH264Unit(0, verifCase("size", 2, 3)).raw())
 	case 1: // STAP-A with two units
@@ -63,6 +63,11 @@ func VerifC15H264() {
 		pkts = append(pkts, append([]byte{u.hdr&0x60 | 28, u.typ()}, u.body[1:2]...))
 		pkts = append(pkts, append([]byte{u.hdr&0x60 | 28, 0x40 | u.typ()}, u.body[2:]...))
 		pkts = append(pkts, verifH264Unit(0, 2).raw())
+	case 4: // a unit whose start fragment carries no payload (RFC 6184 5.8: an FU payload may be empty)
+		u := verifH264Unit(0, 3)
+		pkts = append(pkts, []byte{u.hdr&0x60 | 28, 0x80 | u.typ()})
+		pkts = append(pkts, append([]byte{u.hdr&0x60 | 28, 0x40 | u.typ()}, u.body...))
+		verifCover("C15.h264.empty-start")
 	default: // a single unit (an SEI, say) and then a unit fragmented in two FU-A packets
 		pkts = append(pkts, verifH264Unit(0, 2).raw())
 		u := verifH264Unit(0, 3)
